@@ -143,7 +143,7 @@ def check_loader(ctx, cfg, fb):
     it = fb.need("rln::circuit::zkey_from_raw")
     ctx.touch(it)
     eng = Engine(fb, inline=opaque_rx(r"^rln::circuit::(zkey::read_zkey|read_arkzkey_from_bytes_uncompressed)$"))
-    oks = [eng.value_of(p.store, p.ret) for p in ret_paths(eng.run(it)) if known_ok(eng.value_of(p.store, p.ret)) is True]
+    oks = [eng.value_of(p.store, p.ret) for p in ret_paths(eng.run(it)) if known_ok(eng.value_of(p.store, p.ret)) is not False]
     ok = len(oks) == 1 and oks[0][4][0] == ("unwrap", call(reader, P(1)))
     ctx.check(ok, "R17-4", "zkey_from_raw[%s]" % cfg, "%s(caller's bytes)" % reader.split("::")[-1], "zkey_from_raw returns %s" % [sh(o, 160) for o in oks], loc(it))
     cit, n = const_len(fb, const)
@@ -155,7 +155,7 @@ def check_loader(ctx, cfg, fb):
         rd = fb.need(reader)
         ctx.touch(rd)
         e2 = Engine(fb, inline=lambda i: False)
-        oks = [e2.value_of(p.store, p.ret) for p in ret_paths(e2.run(rd)) if known_ok(e2.value_of(p.store, p.ret)) is True]
+        oks = [e2.value_of(p.store, p.ret) for p in ret_paths(e2.run(rd)) if known_ok(e2.value_of(p.store, p.ret)) is not False]
         ok = False
         why = "expected one success path, found %d" % len(oks)
         if len(oks) == 1:
@@ -213,6 +213,7 @@ def run(ctx):
     c06.check_atomic(sub, fbd, "default")
     c06.check_formulas(sub, fbd)
     c06.check_recompute(sub, fbd)
+    c06.check_complete_writes(sub, fbd)
     c06.check_delegation(sub, fbd)
     c06.check_subtree_root(sub, fbd)
     for r in sub.results:
